@@ -13,9 +13,11 @@ var zzMSLReserved = []string{"if", "do", "for", "int", "bool", "uint", "void", "
 	"using", "namespace", "kernel", "vertex", "fragment", "device", "constant", "thread", "threadgroup", "sampler", "unsigned",
 	"signed", "static", "inline", "new", "delete", "this", "operator", "auto", "enum", "union", "goto", "typedef", "sizeof",
 	"volatile", "register", "extern", "friend", "private", "public", "protected", "virtual", "try", "catch", "throw", "nullptr",
-	"float4", "int2", "uint3", "half4", "float4x4", "texture2d", "metal", "NULL", "and", "or", "not", "xor", "bitand", "bitor",
+	"float4", "int2", "uint3", "half4", "float4x4", "texture2d", "metal", "and", "or", "not", "xor", "bitand", "bitor",
 	"compl", "export", "mutable", "explicit", "constexpr", "decltype", "noexcept", "alignas", "alignof", "asm", "wchar_t",
-	"char16_t", "char32_t", "static_assert", "thread_local", "uchar", "ushort", "size_t", "ptrdiff_t", "atomic_uint", "atomic_int"}
+	"char16_t", "char32_t", "static_assert", "thread_local", "uchar", "ushort", "size_t", "ptrdiff_t", "atomic_uint", "atomic_int",
+	// <metal_math> macros
+	"M_PI", "M_PI_2", "M_PI_4", "M_1_PI", "M_2_PI", "M_E", "M_LN2", "M_LN10", "M_LOG2E", "M_SQRT2", "M_SQRT1_2"}
 
 func zzIsIdent(s string) bool {
 	if len(s) == 0 {
@@ -98,6 +100,19 @@ func ZZ_C16_msl_namer_suffix_family() {
 	nm := newNamer()
 	r1, r2, r3 := nm.call(l1), nm.call(l2), nm.call(l1)
 	zz.Assert(zzIsIdent(r1) && zzIsIdent(r2) && zzIsIdent(r3), "not a legal identifier")
+	zz.Assert(r1 != r2 && r1 != r3 && r2 != r3, "two entities in one scope received the same spelling")
+	zz.Reach("end")
+}
+
+// U1c: one label (every identifier of length 1..4) given to three entities of one scope: the
+// suffixed spellings must not run into a reserved word either (M_PI -> M_PI_, M_PI_1, M_PI_2).
+func ZZ_C16_msl_namer_repeated_label() {
+	l := zzLabel("a", zz.Choice("len", 4)+1)
+	nm := newNamer()
+	r1, r2, r3 := nm.call(l), nm.call(l), nm.call(l)
+	zzCheckName(r1, "first use")
+	zzCheckName(r2, "second use")
+	zzCheckName(r3, "third use")
 	zz.Assert(r1 != r2 && r1 != r3 && r2 != r3, "two entities in one scope received the same spelling")
 	zz.Reach("end")
 }
